@@ -15,6 +15,20 @@ Gates (only what C07 determines):
 * every query of a history on shared graph objects is also compared with the cache-free answer;
 * filter on == filter off, relabelled copies get the same verdict, symmetric under equal/absent hcount
   (metamorphic gates on the implementation itself, mirroring the theorems).
+
+Streams added for anchor coverage (after the original ones, so the original draws are unchanged):
+* `prefilter`: `SubgraphSearchEngine.find_subgraph_mappings(pre_filter=True/False)` — the anchored
+  `_quick_pre_filter` — against the Lean model `SynKit.SubgraphSearch.search` (driver `c06.search`;
+  theorems `prefilter_spec`, `prefilter_zero_sound`, `prefilter_zero_lossless`, `prefilter_sound_or_large`
+  of Props/C06.lean).  Gate: result *set* impl == model with the filter off and with it on; a difference
+  with the filter on is a violation of C07 (input reported) unless it lies inside the documented blow-up
+  guard (candidate product, computed independently here, exceeds the threshold), where it is reported as
+  a broken correspondence without input.
+* `sub-options`: the boolean sub-graph tests with falsy / absent `edge_attribute`, other label
+  selections and defaults, explicit comparators (`eq`-equivalent, or constant-true = attribute not
+  selected) — expected verdicts from the Lean model under the translated selection.
+* `degenerate`: empty graphs, a graph queried against itself, `node_attrs=None`, backend spelled
+  `"NX"`, unsupported backends (must raise or answer as the model does).
 """
 import json
 
@@ -50,6 +64,12 @@ THEOREMS = [
     "SynKit.GME.preCheck_sound",
     "SynKit.GME.get_mappings_nonempty_iff_contained",
     "SynKit.GME.isomorphic_iff",
+    "SynKit.SubgraphSearch.prefilter_spec",
+    "SynKit.SubgraphSearch.prefilter_zero_sound",
+    "SynKit.SubgraphSearch.prefilter_zero_lossless",
+    "SynKit.SubgraphSearch.prefilter_estimate_upper",
+    "SynKit.SubgraphSearch.prefilter_fires_iff",
+    "SynKit.SubgraphSearch.prefilter_sound_or_large",
 ]
 
 NODE_ATTRS = [["element"], ["element", "charge"], ["element", "charge"], []]
@@ -60,8 +80,20 @@ EDGE_ATTRS = [["order"], ["order"], []]
 def mk_engine(cfg):
     from synkit.Graph.Matcher.graph_matcher import GraphMatcherEngine
 
-    return GraphMatcherEngine(node_attrs=list(cfg["node_attrs"]), edge_attrs=list(cfg["edge_attrs"]),
-                              wl1_filter=cfg["wl1_filter"], max_mappings=cfg["max_mappings"])
+    na, ea = list(cfg["node_attrs"]), list(cfg["edge_attrs"])
+    kw = {}
+    if "backend" in cfg:
+        kw["backend"] = cfg["backend"]
+    if cfg.get("none_for_empty"):  # the documented default `None` instead of an empty selection
+        na, ea = (na or None), (ea or None)
+    return GraphMatcherEngine(node_attrs=na, edge_attrs=ea, wl1_filter=cfg["wl1_filter"],
+                              max_mappings=cfg["max_mappings"], **kw)
+
+
+def backend_supported(cfg):
+    """Only the spelling "nx" is taken as certainly supported: C07 says nothing about back-end names, so for any other
+    name (incl. "NX", which the engine lower-cases today) raising is accepted, and an answer is judged like any other."""
+    return cfg.get("backend", "nx") == "nx"
 
 
 def impl_history(graphs, queries):
@@ -71,10 +103,10 @@ def impl_history(graphs, queries):
     out = []
     for q in queries:
         key = json.dumps(q["engine"], sort_keys=True)
-        if key not in engines:
-            engines[key] = mk_engine(q["engine"])
-        e = engines[key]
         try:
+            if key not in engines:
+                engines[key] = mk_engine(q["engine"])
+            e = engines[key]
             if q["op"] == "iso":
                 out.append({"verdict": bool(e.isomorphic(graphs[q["a"]], graphs[q["b"]]))})
             else:
@@ -114,6 +146,17 @@ def hist_case(graphs, queries):
     return {"kind": "history", "graphs": [graphio.graph(g) for g in graphs], "queries": queries}
 
 
+def _cmp_eq(a, b):
+    return a == b
+
+
+def _cmp_true(a, b):
+    return True
+
+
+CMPS = {None: None, "eq": _cmp_eq, "true": _cmp_true}
+
+
 def impl_sub(which, child, parent, cfg):
     from synkit.Graph.Matcher.subgraph_matcher import SubgraphMatch
     from synkit.Graph.Matcher import graph_morphism
@@ -121,12 +164,17 @@ def impl_sub(which, child, parent, cfg):
     kw = dict(node_label_names=list(cfg["names"]), node_label_default=[graphio.unval(d) for d in cfg["defaults"]],
               edge_attribute=cfg["edge_attr"], use_filter=cfg["use_filter"],
               check_type="induced" if cfg["induced"] else "monomorphism")
+    if which != "is_subgraph":  # is_subgraph has no comparator parameters
+        if cfg.get("node_cmp"):
+            kw["node_comparator"] = CMPS[cfg["node_cmp"]]
+        if cfg.get("edge_cmp"):
+            kw["edge_comparator"] = CMPS[cfg["edge_cmp"]]
     c0, p0 = child.copy(), parent.copy()
     try:
         if which == "SubgraphMatch":
             r = SubgraphMatch.subgraph_isomorphism(child, parent, **kw)
         elif which == "is_subgraph":
-            r = SubgraphMatch.is_subgraph(child, parent, **kw, backend="nx")
+            r = SubgraphMatch.is_subgraph(child, parent, **kw, backend=cfg.get("backend", "nx"))
         else:
             r = graph_morphism.subgraph_isomorphism(child, parent, **kw)
     except Exception as ex:
@@ -134,8 +182,30 @@ def impl_sub(which, child, parent, cfg):
     return {"verdict": bool(r), "mutated": not (matchgen.graphs_equal(child, c0) and matchgen.graphs_equal(parent, p0))}
 
 
+def model_sub_cfg(cfg):
+    """The selection the model is asked about: a constant-true comparator compares nothing, i.e. the
+    attribute is not selected (only generated with use_filter=False: the filter compares with `!=`)."""
+    names, defaults, edge_attr = list(cfg["names"]), list(cfg["defaults"]), cfg["edge_attr"]
+    if cfg.get("node_cmp") == "true":
+        names, defaults = [], []
+    if cfg.get("edge_cmp") == "true":
+        edge_attr = None
+    return {"names": names, "defaults": defaults, "edge_attr": edge_attr, "use_filter": cfg["use_filter"], "induced": cfg["induced"]}
+
+
+def sub_variants(cfg):
+    """Which of the three entry points take this configuration."""
+    out = []
+    if cfg["edge_attr"] is not None:  # SubgraphMatch documents `edge_attribute: str`; None is accepted by graph_morphism only
+        out.append("SubgraphMatch")
+    out.append("graph_morphism")
+    if cfg["edge_attr"] is not None and not cfg.get("node_cmp") and not cfg.get("edge_cmp"):
+        out.append("is_subgraph")
+    return out
+
+
 def sub_request(child, parent, cfg):
-    return {"cmd": "c07.sub", "child": graphio.graph(child), "parent": graphio.graph(parent), **cfg}
+    return {"cmd": "c07.sub", "child": graphio.graph(child), "parent": graphio.graph(parent), **model_sub_cfg(cfg)}
 
 
 def impl_giso(g1, g2, use_defaults):
@@ -160,6 +230,11 @@ def eval_histories(ctx, cases, tag):
         pos = sum(1 for a in mod["answers"] if a.get("verdict") or a.get("n"))
         for q, a in zip(queries, mod["answers"]):
             ctx.count("query:" + q["op"] + ("+wl" if q["engine"]["wl1_filter"] else ""))
+            if tag == "degenerate":
+                ctx.count("degenerate:" + ("same-object" if q["a"] == q["b"] else "empty-graph" if 0 in (len(graphs[q["a"]]), len(graphs[q["b"]]))
+                                           else "single-node" if 1 in (len(graphs[q["a"]]), len(graphs[q["b"]])) else "other")
+                          + (":attrs=None" if q["engine"].get("none_for_empty") else "")
+                          + (":backend=" + q["engine"]["backend"] if "backend" in q["engine"] else ""))
             if q["op"] == "iso":
                 ctx.count("iso:" + ("true" if a["verdict"] else "false"))
             else:
@@ -174,6 +249,10 @@ def eval_histories(ctx, cases, tag):
         if mutated:
             why, at = "an input graph was modified", len(queries) - 1
         for i, (q, a, m) in enumerate(zip(queries, impl, mod["answers"])):
+            if not backend_supported(q["engine"]):
+                ctx.count("backend:" + str(q["engine"]["backend"]) + (":raised" if "error" in a else ":answered"))
+                if "error" in a:  # no answer given: nothing for the property to judge
+                    continue
             w = judge_answer(q, a, m)
             if w:
                 why, at = w, i
@@ -237,10 +316,18 @@ def eval_sub(ctx, cases, tag):
                   + (":true" if mod["verdict"] else ":false"))
         if cfg["use_filter"] and not mod["filter"]:
             ctx.count("sub_filter_rejected")
+        if tag == "sub-options":
+            ctx.count("subopt:edge_attribute=" + repr(cfg["edge_attr"]))
+            ctx.count("subopt:labels=" + ",".join(cfg["names"]) + "/defaults=" + ",".join(str(graphio.unval(d)) for d in cfg["defaults"]))
+            ctx.count(f"subopt:node_comparator={cfg.get('node_cmp')}:edge_comparator={cfg.get('edge_cmp')}")
         ctx.case([graphio.graph(child), graphio.graph(parent), cfg], mod["verdict"] and len(parent) >= 2)
-        for which in ("SubgraphMatch", "graph_morphism", "is_subgraph"):
+        for which in sub_variants(cfg):
             impl = impl_sub(which, child, parent, cfg)
             why = None
+            if which == "is_subgraph" and cfg.get("backend", "nx") != "nx":
+                ctx.count("is_subgraph_backend:" + str(cfg["backend"]) + (":raised" if "error" in impl else ":answered"))
+                if "error" in impl:  # no answer given: nothing for the property to judge
+                    continue
             if "error" in impl:
                 why = "raised " + impl["error"]
             elif impl["mutated"]:
@@ -280,6 +367,161 @@ def eval_giso(ctx, cases, tag):
                           {"implementation": impl, "specification": mod, "stream": tag})
             if len(ctx.violations) >= 5:
                 return
+
+
+# ---------------------------------------------------------------- SubgraphSearchEngine: pre_filter on / off
+SEARCH_NK = [["element"], ["element", "charge"], [], ["charge", "element"], ["element", "in_ring"]]
+SEARCH_EK = [["order"], ["order"], []]
+
+
+def impl_search(host, pat, nk, ek, cfg):
+    from synkit.Graph.Matcher.subgraph_matcher import SubgraphSearchEngine as S
+    from synkit.Synthesis.Reactor.strategy import Strategy
+
+    strat = Strategy(cfg["strategy"]) if cfg.get("as_enum") else cfg["strategy"]
+    h0, p0 = host.copy(), pat.copy()
+    try:
+        res = S.find_subgraph_mappings(host, pat, node_attrs=list(nk), edge_attrs=list(ek), strategy=strat,
+                                       max_results=None, strict_cc_count=cfg["strict"],
+                                       threshold=cfg["threshold"], pre_filter=cfg["pre_filter"])
+    except Exception as ex:
+        return {"error": type(ex).__name__ + ": " + str(ex)[:200]}
+    lst = [graphio.mapping(m) for m in res]
+    return {"maps": sorted(lst), "n": len(lst), "dups": len(lst) - len({json.dumps(m) for m in lst}),
+            "mutated": not (matchgen.graphs_equal(host, h0) and matchgen.graphs_equal(pat, p0))}
+
+
+def cand_counts(host, pat, nk):
+    """The documented candidate sets of the pre-filter, counted independently of the code under test: for every
+    pattern node the host nodes with equal selected attributes, hydrogen count >= and degree >= the pattern node's."""
+    out = []
+    for p, pd in pat.nodes(data=True):
+        out.append(sum(1 for h, hd in host.nodes(data=True)
+                       if all(hd.get(k) == pd.get(k) for k in nk) and hd.get("hcount", 0) >= pd.get("hcount", 0)
+                       and host.degree(h) >= pat.degree(p)))
+    return out
+
+
+def search_request(host, pat, nk, ek, cfgs):
+    mc = [{"strategy": c["strategy"], "max_results": None, "strict": c["strict"], "threshold": c["threshold"],
+           "pre_filter": c["pre_filter"]} for c in cfgs]
+    # last run: probe of the zero-candidate branch alone (a threshold no candidate product reaches)
+    mc.append({"strategy": "all", "max_results": None, "strict": False, "threshold": 10 ** 9, "pre_filter": True})
+    return {"cmd": "c06.search", "host": graphio.graph(host), "pattern": graphio.graph(pat),
+            "node_keys": list(nk), "edge_keys": list(ek), "cfgs": mc}
+
+
+def search_case(host, pat, nk, ek, cfg):
+    return {"kind": "search", "host": graphio.graph(host), "pattern": graphio.graph(pat), "node_keys": list(nk),
+            "edge_keys": list(ek), "cfg": cfg}
+
+
+def judge_search(host, pat, nk, cfg, impl_off, impl_on, m_off, m_on):
+    """-> (None | "spec" | "corr", text).  "spec": C07 is violated on this input; "corr": the implementation departs
+    from the model only inside the documented blow-up guard (the filter may give up when the candidate product
+    exceeds the threshold), which C07 does not constrain."""
+    for name, impl in (("pre_filter=False", impl_off), ("pre_filter=True", impl_on)):
+        if "error" in impl:
+            return "spec", f"{name}: raised {impl['error']}"
+        if impl["mutated"]:
+            return "spec", f"{name}: an input graph was modified"
+        if impl["dups"]:
+            return "spec", f"{name}: embeddings contain duplicates"
+    if impl_off["maps"] != m_off["result"]:
+        return "spec", (f"pre_filter=False: {impl_off['n']} embedding(s) returned, the specification of the strategy "
+                        f"demands {m_off['n']} (set comparison)")
+    if impl_on["maps"] == m_on["result"]:
+        return None, None
+    counts = cand_counts(host, pat, nk)
+    prod = 1
+    for c in counts:
+        prod *= c
+    thr = 5000 if cfg["threshold"] is None else cfg["threshold"]
+    if impl_on["maps"] == m_off["result"]:
+        return "corr", "the modelled blow-up guard fires, the implementation returned the unfiltered result"
+    if impl_on["n"] == 0 and 0 not in counts and prod > thr:
+        return "corr", f"the filter gave up at candidate product {prod} (threshold {thr}); the model's guard does not fire there"
+    return "spec", (f"turning the pre-filter on changed the result set: {impl_on['n']} embedding(s) with pre_filter=True, "
+                    f"{m_off['n']} without (candidates per pattern node {counts}, product {prod}, threshold {thr})")
+
+
+def eval_search(ctx, cases, tag):
+    """cases: list of (host, pattern, node_keys, edge_keys, cfgs, shape); every cfg is evaluated with the pre-filter off and on."""
+    if not cases:
+        return
+    def both(cfgs):
+        return [{**c, "pre_filter": f} for c in cfgs for f in (False, True)]
+    mods = ctx.lean().ok([search_request(h, p, nk, ek, both(cfgs)) for h, p, nk, ek, cfgs, _ in cases], shards=8)
+    for (host, pat, nk, ek, cfgs, shape), mod in zip(cases, mods):
+        total = mod["total"]
+        counts = cand_counts(host, pat, nk)
+        zero = 0 in counts
+        ctx.count("stream:" + tag)
+        ctx.count("shape:" + shape)
+        ctx.count("search_matches:" + ("0" if total == 0 else "1" if total == 1 else "many"))
+        ctx.count("search_zero_candidate_node:" + ("yes" if zero else "no"))
+        ctx.case(["search", graphio.graph(host), graphio.graph(pat), nk, ek], total >= 1 and host.number_of_nodes() >= 2,
+                 sample={"stream": tag, **search_case(host, pat, nk, ek, {**cfgs[0], "pre_filter": True}), "matches": total}
+                 if host.number_of_nodes() <= 3 else None)
+        if mod["runs"][-1]["prefilter"] != zero:
+            ctx.violation("model: `_quick_pre_filter` zero-candidate branch differs from the documented candidate definition "
+                          "(harness cand_counts vs SubgraphSearch.quickPreFilter)", search_case(host, pat, nk, ek, cfgs[0]),
+                          {"counts": counts, "model_prefilter": mod["runs"][-1]["prefilter"]}, no_input=True)
+        if zero and total:
+            ctx.violation("model: a pattern node has no candidate but a monomorphism exists (theorem prefilter_zero_sound contradicted)",
+                          search_case(host, pat, nk, ek, cfgs[0]), {"counts": counts, "total": total}, no_input=True)
+        for i, cfg in enumerate(cfgs):
+            m_off, m_on = mod["runs"][2 * i], mod["runs"][2 * i + 1]
+            fired = m_on["prefilter"]
+            branch = "zero" if zero else "estimate" if fired else "none"
+            ctx.count(f"search:{cfg['strategy']}{'+strict' if cfg['strict'] and cfg['strategy'] != 'all' else ''}"
+                      f":thr={cfg['threshold']}:filter_branch={branch}")
+            if fired and not zero and m_off["n"]:
+                ctx.count("search_guard_empties_nonempty_result(documented)")
+            if not fired and m_on["result"] != m_off["result"]:
+                ctx.violation("model: pre-filter passes but the model's answers differ (theorem prefilter_spec contradicted)",
+                              search_case(host, pat, nk, ek, cfg), None, no_input=True)
+            impl_off = impl_search(host, pat, nk, ek, {**cfg, "pre_filter": False})
+            impl_on = impl_search(host, pat, nk, ek, {**cfg, "pre_filter": True})
+            kind, why = judge_search(host, pat, nk, cfg, impl_off, impl_on, m_off, m_on)
+            if kind is None:
+                continue
+            report_search(ctx, host, pat, nk, ek, cfg, kind, why, tag)
+            break
+        if len(ctx.violations) >= 5:
+            return
+
+
+def search_verdict(ctx, host, pat, nk, ek, cfg):
+    mod = ctx.lean().ok([search_request(host, pat, nk, ek, [{**cfg, "pre_filter": False}, {**cfg, "pre_filter": True}])])[0]
+    impl_off = impl_search(host, pat, nk, ek, {**cfg, "pre_filter": False})
+    impl_on = impl_search(host, pat, nk, ek, {**cfg, "pre_filter": True})
+    kind, why = judge_search(host, pat, nk, cfg, impl_off, impl_on, mod["runs"][0], mod["runs"][1])
+    return kind, why, impl_off, impl_on, mod
+
+
+def report_search(ctx, host, pat, nk, ek, cfg, kind, why, tag):
+    if kind == "corr":
+        ctx.violation("correspondence: `_quick_pre_filter` blow-up guard fires elsewhere than modelled (threshold * 1e4); "
+                      "C07 itself is not violated on this input", search_case(host, pat, nk, ek, {**cfg, "pre_filter": True}),
+                      {"clause": why, "stream": tag}, no_input=True)
+        return
+
+    def fails(h, p):
+        k, w, a, b, _ = search_verdict(ctx, h, p, nk, ek, cfg)
+        return k == "spec" and "error" not in a and "error" not in b
+
+    h2, p2 = matchgen.shrink_pair(host, pat, fails, budget=120)
+    k, w, impl_off, impl_on, mod = search_verdict(ctx, h2, p2, nk, ek, cfg)
+    if k != "spec":
+        h2, p2 = host, pat
+        k, w, impl_off, impl_on, mod = search_verdict(ctx, h2, p2, nk, ek, cfg)
+    ctx.violation("find_subgraph_mappings: the cheap pre-filter changes the result set / embeddings depart from the specification",
+                  search_case(h2, p2, nk, ek, {**cfg, "pre_filter": True}),
+                  {"clause": w or why, "stream": tag, "pre_filter=False": impl_off, "pre_filter=True": impl_on,
+                   "specification": {"pre_filter=False": mod["runs"][0]["result"], "pre_filter=True": mod["runs"][1]["result"],
+                                     "model_filter_gives_up": mod["runs"][1]["prefilter"]},
+                   "candidates_per_pattern_node": cand_counts(h2, p2, nk), "monomorphisms_total": mod["total"]})
 
 
 # ---------------------------------------------------------------- generators
@@ -414,6 +656,173 @@ def gen_sub(ctx, count):
     return out
 
 
+def _search_cfgs(rnd, guard=False):
+    """Configurations for one (host, pattern): every strategy with the default threshold, plus small thresholds
+    (where the candidate-product guard of the pre-filter can fire).  Each is run with pre_filter off and on."""
+    cfgs = [{"strategy": "all", "strict": True, "threshold": None},
+            {"strategy": "comp", "strict": False, "threshold": None},
+            {"strategy": "bt", "strict": rnd.random() < 0.3, "threshold": None}]
+    if rnd.random() < 0.3:
+        cfgs.append({"strategy": "comp", "strict": True, "threshold": None})
+    for t in ([0, 1, rnd.choice([2, 3])] if guard else [rnd.choice([0, 1, 2, 3, 10])]):
+        cfgs.append({"strategy": rnd.choice(["all", "all", "comp", "bt"]), "strict": False, "threshold": t})
+    for c in cfgs:
+        if rnd.random() < 0.3:
+            c["as_enum"] = True
+    return cfgs
+
+
+def gen_prefilter(ctx, count):
+    """Pairs aimed at the decision boundaries of `_quick_pre_filter`: attribute equality, hydrogen count >=,
+    degree >=, no candidate at all, and the candidate-product guard."""
+    rnd = ctx.rnd
+    out = []
+    for _ in range(count):
+        r = rnd.random()
+        nk, ek = rnd.choice(SEARCH_NK), rnd.choice(SEARCH_EK)
+        guard = False
+        if r < 0.30:  # planted pattern (contained): the filter has to let it through
+            if rnd.random() < 0.5:
+                host = matchgen.mol_like(rnd, rnd.randint(2, 8), hcount_absent_p=rnd.choice([0.0, 0.15, 0.6]))
+                ncomp = 1
+            else:
+                host = matchgen.multi_component(rnd, [rnd.randint(1, 3) for _ in range(rnd.randint(2, 3))], elems=["C", "C", "N"],
+                                                hcount_absent_p=rnd.choice([0.15, 0.6]))
+                ncomp = rnd.choice([1, 2])
+            pat, _ = matchgen.pattern_from(rnd, host, rnd.randint(ncomp, 5), ncomp, lower_h_p=rnd.choice([0.0, 0.5]))
+            shape = "prefilter/planted"
+        elif r < 0.50:  # hydrogen boundary: one pattern node at exactly / one above the hydrogen count of its image
+            host = matchgen.mol_like(rnd, rnd.randint(2, 7), elems=["C", "N", "O", "S"], hcount_absent_p=rnd.choice([0.0, 0.3]))
+            k = rnd.randint(1, len(host))
+            pat, _ = matchgen.pattern_from(rnd, host, k, 1, lower_h_p=0.0, induced_p=1.0)
+            v = rnd.choice(list(pat.nodes))
+            top = max([d.get("hcount", 0) for _, d in host.nodes(data=True) if d.get("element") == pat.nodes[v].get("element")] or [0])
+            if rnd.random() < 0.5:
+                pat.nodes[v]["hcount"] = top
+                shape = "prefilter/hcount=max"
+            else:
+                pat.nodes[v]["hcount"] = top + 1
+                shape = "prefilter/hcount=max+1"
+        elif r < 0.70:  # degree boundary: a whole component (degrees equal), or one pendant neighbour too many
+            host = matchgen.mol_like(rnd, rnd.randint(2, 7), elems=["C", "C", "N"], ring_p=0.7)
+            pat, _ = matchgen.relabelled_copy(rnd, host, base=100)
+            if rnd.random() < 0.5:
+                shape = "prefilter/degree=equal"
+            else:
+                top = max(d for _, d in host.degree())
+                v = rnd.choice([x for x in pat.nodes if pat.degree(x) == top] if rnd.random() < 0.6 else list(pat.nodes))
+                keep = set(matchgen.connected_subset(rnd, pat, rnd.randint(1, len(pat)), [v]))
+                pat = pat.subgraph(keep | {v}).copy()
+                w = max(pat.nodes) + 1
+                pat.add_node(w, element=rnd.choice(["C", "N"]), charge=0, hcount=0)
+                pat.add_edge(v, w, order=1.0)
+                shape = "prefilter/degree+pendant"
+        elif r < 0.82:  # one label edited (mostly unplants the pattern; the filter may or may not see it)
+            host = matchgen.mol_like(rnd, rnd.randint(2, 8))
+            pat, tag = matchgen.pattern_from(rnd, host, rnd.randint(1, 5), 1, edit_p=1.0)
+            shape = "prefilter/" + tag.replace(":", "-")
+        elif r < 0.90:  # many candidates: the candidate-product guard fires for small thresholds
+            host = matchgen.symmetric_family(rnd, rnd.choice(["cycle", "star", "path", "kab", "rep"]), rnd.randint(5, 8))
+            pat = matchgen.symmetric_family(rnd, rnd.choice(["path", "rep", "star"]), rnd.randint(3, 5), base=100)
+            for v in pat.nodes:
+                pat.nodes[v]["hcount"] = rnd.choice([0, 1])
+            guard = True
+            shape = "prefilter/symmetric"
+        elif r < 0.95:  # few embeddings, large candidate product: only the guard can empty the result
+            n = rnd.randint(5, 8)
+            host = nx.Graph()
+            for i in range(n):
+                host.add_node(i, element="C", charge=0, hcount=2)
+            for i in range(n - 1):
+                host.add_edge(i, i + 1, order=float(rnd.choice([1, 2, 3])))
+            pat, _ = matchgen.relabelled_copy(rnd, host, base=100)
+            nk, ek, guard = ["element"], ["order"], True
+            shape = "prefilter/chain-copy"
+        else:  # degenerate: empty pattern / empty host / isolated nodes
+            host = matchgen.multi_component(rnd, [rnd.randint(0, 2) for _ in range(rnd.randint(0, 3))], elems=["C", "N"])
+            pat = matchgen.multi_component(rnd, [rnd.randint(0, 1) for _ in range(rnd.randint(0, 3))], elems=["C", "N"], base=100)
+            shape = "prefilter/degenerate"
+        if "in_ring" in nk:  # an attribute some nodes do not carry: `.get` gives None on both sides
+            for g in (host, pat):
+                for v in g.nodes:
+                    if rnd.random() < 0.5:
+                        g.nodes[v]["in_ring"] = rnd.random() < 0.3
+        out.append((host, pat, nk, ek, _search_cfgs(rnd, guard), shape))
+    return out
+
+
+SUB_SELECTIONS = [(["element", "charge"], [{"s": "*"}, {"n": 0}]), (["element"], [{"s": "*"}]), ([], []), (["charge"], [{"n": 0}]),
+                  (["charge", "element"], [{"n": 0}, {"s": "C"}]), (["element"], [{"s": "C"}]), (["element", "hcount"], [{"s": "*"}, {"n": 0}])]
+
+
+def gen_sub_options(ctx, count):
+    """The boolean sub-graph tests under the options the original stream keeps fixed: falsy / absent edge attribute,
+    other label selections and defaults (with attributes missing so that defaults matter), explicit comparators."""
+    rnd = ctx.rnd
+    out = []
+    for _ in range(count):
+        parent, child, shape = gen_host_pattern(rnd)
+        if rnd.random() < 0.5:  # missing attributes: defaults / None labels matter
+            for g in (parent, child):
+                for v in g.nodes:
+                    for k in ("charge", "element", "hcount"):
+                        if rnd.random() < 0.2:
+                            g.nodes[v].pop(k, None)
+                for u, v in g.edges:
+                    if rnd.random() < 0.15:
+                        g[u][v].pop("order", None)
+        names, defaults = rnd.choice(SUB_SELECTIONS)
+        cfg = {"names": names, "defaults": defaults, "edge_attr": rnd.choice(["order", "order", "", None, None, "bond"]),
+               "use_filter": rnd.random() < 0.5, "induced": rnd.random() < 0.5}
+        r = rnd.random()
+        if r < 0.2:
+            cfg["node_cmp"] = "eq"
+            cfg["edge_cmp"] = rnd.choice([None, "eq"])
+        elif r < 0.4:  # constant-true comparator = attribute not selected (filter off: the filter compares with `!=`)
+            cfg["use_filter"] = False
+            cfg["node_cmp"], cfg["edge_cmp"] = rnd.choice([("true", None), (None, "true"), ("true", "true"), ("true", "eq")])
+        elif r < 0.5:
+            cfg["backend"] = rnd.choice(["mod", "NX", "bogus"])
+            if cfg["edge_attr"] is None:
+                cfg["edge_attr"] = ""
+        out.append((child, parent, cfg, "subopt/" + shape))
+        if rnd.random() < 0.5 and cfg.get("node_cmp") != "true" and cfg.get("edge_cmp") != "true":
+            out.append((child, parent, {**cfg, "use_filter": not cfg["use_filter"]}, "subopt/" + shape))
+    return out
+
+
+def gen_degenerate(ctx, count):
+    """Engine queries the original streams never ask: empty graphs, a graph against itself, `node_attrs=None`,
+    the backend spelled in upper case, unsupported backends."""
+    rnd = ctx.rnd
+    out = []
+    for _ in range(count):
+        g1, g2, shape = gen_pair(rnd)
+        graphs = [g1, g2, nx.Graph()]
+        if rnd.random() < 0.5:
+            one = nx.Graph()
+            one.add_node(rnd.randint(0, 60), element=rnd.choice(["C", "N"]), charge=0, hcount=rnd.choice([0, 1]))
+            graphs.append(one)
+        engines = []
+        for _ in range(rnd.randint(1, 3)):
+            e = rand_engine(rnd)
+            r = rnd.random()
+            if r < 0.3:
+                e["none_for_empty"] = True
+            elif r < 0.5:
+                e["backend"] = rnd.choice(["NX", "Nx"])
+            elif r < 0.65:
+                e["backend"] = rnd.choice(["rule", "mod", "bogus"])
+            engines.append(e)
+        qs = []
+        for _ in range(rnd.randint(2, 5)):
+            a = rnd.randrange(len(graphs))
+            b = a if rnd.random() < 0.3 else rnd.randrange(len(graphs))
+            qs.append({"op": rnd.choice(["iso", "maps"]), "engine": rnd.choice(engines), "a": a, "b": b})
+        out.append((graphs, qs, "degenerate/" + shape.split(":")[0]))
+    return out
+
+
 def gen_tiny(ctx):
     labels = [("C", 0), ("C", 1), ("N", 0)]
     gs = []
@@ -436,6 +845,9 @@ def run_case_json(ctx, c, tag):
         eval_sub(ctx, [(graphio.to_nx(c["child"]), graphio.to_nx(c["parent"]), c["cfg"], "regress")], tag)
     elif c.get("kind") == "giso":
         eval_giso(ctx, [(graphio.to_nx(c["g1"]), graphio.to_nx(c["g2"]), c["use_defaults"], "regress")], tag)
+    elif c.get("kind") == "search":
+        cfg = {k: v for k, v in c["cfg"].items() if k != "pre_filter"}
+        eval_search(ctx, [(graphio.to_nx(c["host"]), graphio.to_nx(c["pattern"]), c["node_keys"], c["edge_keys"], [cfg], "regress")], tag)
     else:
         eval_histories(ctx, [([graphio.to_nx(g) for g in c["graphs"]], c["queries"], "regress")], tag)
 
@@ -447,19 +859,38 @@ def run(ctx):
         "NetworkX VF2 (is_isomorphic, subgraph_is_isomorphic/monomorphic, *_iter) honours the node/edge closures it is given; its "
         "enumeration order is not modelled (embedding lists are gated on validity + length)",
         "Driver/GraphMatcherEngine.lean JSON codec, harness/graphio.py encoding, sorting of mapping sets",
+        "stream prefilter: model SynKitModel/SubgraphSearch.lean through driver command c06.search (its theorems, incl. prefilter_spec / "
+        "prefilter_zero_sound / prefilter_zero_lossless / prefilter_sound_or_large, are audited by ./check C06); harness cand_counts "
+        "(the documented candidate definition, re-implemented here) only to classify a difference, cross-checked against the model on every case",
     ]
     ctx.assumptions = [
         "simple undirected graphs, non-negative integer node ids; every node carries every attribute an engine with wl1_filter compares "
         "(the WL histogram sorts label tuples, which Python cannot do for mixed None/str values)",
         "hydrogen rule as documented: the first argument of isomorphic() plays host when sizes are equal (DESIGN 5a)",
         "graph objects are not mutated between queries of a history (the cache is documented to go stale otherwise)",
+        "find_subgraph_mappings(pre_filter=True): the candidate-product guard (docstring: result empty if the pre-filter guard exceeds the "
+        "threshold) is the one documented way the pre-filter may change a result set; it is compared with the model as coded (product > "
+        "threshold*1e4), a difference confined to products above the threshold is reported as a broken correspondence, not as a C07 violation; "
+        "strict_cc_count / threshold semantics of the strategies are C06's and taken from the model as coded",
+        "SubgraphMatch.subgraph_isomorphism / is_subgraph document `edge_attribute: str`: None is passed to graph_morphism.subgraph_isomorphism only "
+        "(the SubgraphMatch copy raises TypeError on None — recorded, not gated); a constant-true comparator is read as 'attribute not selected' "
+        "and only generated with use_filter=False",
+        "a backend name other than 'nx' (incl. 'NX', which the engine lower-cases today) must raise or answer as the model does; mod is not installed, so the rule back-end itself is not exercised",
     ]
     ctx.gen_rule = ("regression corpus first; tiny-exhaustive: all ordered pairs of graph classes with <=3 (quick) / <=4 (thorough) nodes over "
                     "2 elements x hcount{0,1} x orders{1,2}: isomorphic() with filter off/on in both argument orders, get_mappings(max_mappings=None), "
                     "sub-graph tests induced/mono with filter off/on; random: molecule-like graphs <=8 nodes, relabelled copies, one-edit "
                     "neighbours, unrelated pairs, strictly smaller planted/edited patterns, symmetric families; max_mappings in {0,1,2,5,None}; "
                     "query histories of 2-6 queries by 2-3 engines with attribute selections from {element},{element,charge},{charge},{} on 2-3 "
-                    "shared graph objects; graph_isomorphism with/without defaults.")
+                    "shared graph objects; graph_isomorphism with/without defaults. Added streams: prefilter (350 quick / 4000 thorough pairs for "
+                    "find_subgraph_mappings, each with strategies all/comp/bt at the default threshold plus thresholds from {0,1,2,3,10}, "
+                    "pre_filter off and on, strategy as string or enum; 30% planted patterns in molecule-like or multi-component hosts, 20% one pattern "
+                    "node at / one above the largest hydrogen count of its element, 20% relabelled copy (degrees equal) or with one pendant neighbour "
+                    "too many, 12% one-edit, 8% symmetric families and 5% order-labelled chains with small thresholds (candidate-product guard), 5% "
+                    "empty / isolated-node graphs; selections {element},{element,charge},{},{charge,element},{element,in_ring (partly absent)}); "
+                    "sub-options (300 / 3000: edge_attribute in {'order','',None,'bond'}, 7 label selections/defaults with attributes dropped, "
+                    "comparators none / eq / constant-true, is_subgraph back-ends 'mod','NX','bogus'); degenerate (150 / 1500 histories over a pair, "
+                    "the empty graph and a single node: same-object queries, node_attrs=None, backend 'NX'/'Nx' and unsupported names).")
     ctx.nontrivial_rule = "case distinct as JSON, some graph has >=2 nodes and at least one positive answer (true verdict / non-empty embeddings)"
     build_and_audit(ctx, ["SynKitProofs.Props.C07"], "SynKitProofs/Audit/C07.lean", THEOREMS)
 
@@ -513,7 +944,15 @@ def run(ctx):
                 shape += "+defaults"
             gi.append((g1, g2, ctx.rnd.random() < 0.6, shape))
         eval_giso(ctx, gi, "random")
-    ctx.obligation("correspondence: engine verdicts / embeddings / histories, sub-graph tests, graph_isomorphism impl == model", not ctx.violations)
+    # ---- streams added for anchor coverage (kept after the original ones so that their draws are unchanged)
+    if not ctx.violations:
+        eval_search(ctx, gen_prefilter(ctx, 350 if ctx.quick else 4000), "prefilter")
+    if not ctx.violations:
+        eval_sub(ctx, gen_sub_options(ctx, 300 if ctx.quick else 3000), "sub-options")
+    if not ctx.violations:
+        eval_histories(ctx, gen_degenerate(ctx, 150 if ctx.quick else 1500), "degenerate")
+    ctx.obligation("correspondence: engine verdicts / embeddings / histories, sub-graph tests, graph_isomorphism, "
+                   "find_subgraph_mappings with the pre-filter on/off impl == model", not ctx.violations)
 
 
 def replay(ctx, case):
